@@ -90,6 +90,7 @@ type Task struct {
 	implicit  bool  // descheduled by the watchdog while parked inside uninstrumented code
 	inServer  int32 // > 0 while the task executes the system under test (not harness code)
 	simWait   int32 // > 0 while the task waits inside simrt itself (bolt helper goroutine)
+	waking    int32 // set by whoever hands this task the baton, cleared by the task once it runs
 }
 
 type abortT struct{}
@@ -215,6 +216,8 @@ func (s *Sim) Spawn(name string, f func()) *Task {
 		s.byGID[t.gid] = t
 		s.gidMu.Unlock()
 		<-t.wake
+	atomic.StoreInt32(&t.waking, 0)
+		atomic.StoreInt32(&t.waking, 0)
 		if !s.aborted {
 			func() {
 				defer func() {
@@ -258,6 +261,7 @@ func (s *Sim) Run() {
 			}
 		}
 	}
+	atomic.StoreInt32(&first.waking, 1)
 	s.cur = first
 	s.stopDog = make(chan struct{})
 	go s.watchdog()
@@ -484,9 +488,11 @@ func (s *Sim) note(from, to *Task, kind Kind, site string) {
 
 func (s *Sim) switchTo(t, next *Task, kind Kind, site string) {
 	s.note(t, next, kind, site)
+	atomic.StoreInt32(&next.waking, 1)
 	s.cur = next
 	next.wake <- struct{}{}
 	<-t.wake
+	atomic.StoreInt32(&t.waking, 0)
 	if s.aborted {
 		panic(abortSentinel)
 	}
@@ -607,6 +613,7 @@ func (s *Sim) exit(t *Task) {
 				x.state = stDone
 			}
 			if x.state != stDone {
+				atomic.StoreInt32(&x.waking, 1)
 				s.cur = x
 				x.state = stRunnable
 				x.wake <- struct{}{}
@@ -653,6 +660,7 @@ func (s *Sim) exit(t *Task) {
 		}
 	}
 	s.note(t, next, KExit, "exit")
+	atomic.StoreInt32(&next.waking, 1)
 	s.cur = next
 	next.wake <- struct{}{}
 }
@@ -1236,8 +1244,11 @@ func ChanEnd() {
 	if t.state != stChan {
 		return
 	}
+	atomic.AddInt32(&t.simWait, 1) // waiting for the baton inside simrt: not the watchdog's business
 	atomic.StoreInt32(&t.chanEnd, 1)
 	<-t.wake
+	atomic.StoreInt32(&t.waking, 0)
+	atomic.AddInt32(&t.simWait, -1)
 	if s.aborted {
 		panic(abortSentinel)
 	}
@@ -1296,6 +1307,7 @@ func (s *Sim) handOverFromOutside(t *Task, site string, ok bool) {
 		}
 		for _, x := range s.tasks {
 			if x.state != stDone {
+				atomic.StoreInt32(&x.waking, 1)
 				s.cur = x
 				x.state = stRunnable
 				x.wake <- struct{}{}
@@ -1308,6 +1320,7 @@ func (s *Sim) handOverFromOutside(t *Task, site string, ok bool) {
 	if next != t {
 		s.note(t, next, KBlock, site)
 	}
+	atomic.StoreInt32(&next.waking, 1)
 	s.cur = next
 	next.wake <- struct{}{}
 }
@@ -1398,6 +1411,7 @@ func (s *Sim) gateSlow() {
 	atomic.AddInt32(&s.inGate, -1)
 	atomic.StoreInt32(&t.chanEnd, 1)
 	<-t.wake
+	atomic.StoreInt32(&t.waking, 0)
 	t.implicit = false
 	atomic.AddInt32(&s.implicit, -1)
 	if s.aborted {
@@ -1435,7 +1449,7 @@ func (s *Sim) watchdog() {
 			continue
 		}
 		stalled++
-		if stalled < 2 || s.aborted || cur.state != stRunnable || atomic.LoadInt32(&cur.inServer) <= 0 || atomic.LoadInt32(&cur.simWait) > 0 || atomic.LoadInt32(&s.inGate) > 0 {
+		if stalled < 2 || s.aborted || cur.state != stRunnable || atomic.LoadInt32(&cur.inServer) <= 0 || atomic.LoadInt32(&cur.simWait) > 0 || atomic.LoadInt32(&cur.waking) != 0 || atomic.LoadInt32(&s.inGate) > 0 {
 			continue
 		}
 		if !blockedInRuntime(gstatus(cur.gid)) {
@@ -1445,7 +1459,7 @@ func (s *Sim) watchdog() {
 		s.impMu.Lock()
 		atomic.AddInt32(&s.implicit, 1)
 		if s.cur != cur || atomic.LoadInt64(&s.steps) != steps || atomic.LoadInt64(&s.beat) != beat || atomic.LoadInt32(&s.inGate) > 0 ||
-			!blockedInRuntime(gstatus(cur.gid)) || atomic.LoadInt32(&cur.simWait) > 0 {
+			!blockedInRuntime(gstatus(cur.gid)) || atomic.LoadInt32(&cur.simWait) > 0 || atomic.LoadInt32(&cur.waking) != 0 {
 			atomic.AddInt32(&s.implicit, -1)
 			s.impMu.Unlock()
 			stalled = 0
